@@ -127,6 +127,9 @@ func RacePass() int {
 // c17RacePass runs the -race twin of the binary (parent side).
 func c17RacePass(tier mc.Tier, cov map[string]any) []*mc.Violation {
 	bin := filepath.Join(mc.Root(), "bin", "check-race")
+	if b := os.Getenv("VERIF_RACE_BIN"); b != "" {
+		bin = b // built by run.sh from the current tree for this invocation
+	}
 	if _, err := os.Stat(bin); err != nil {
 		cov["race_pass"] = map[string]any{"ran": false, "why": "bin/check-race not built"}
 		return nil
